@@ -304,6 +304,49 @@ class Batch:
         self.reqs = []
         self.items = []
         self.sig_seen = {}
+        self.tmp = None
+        self.snapshot = None
+
+    def _driver(self):
+        """a private copy of the driver binary (another check may be relinking the shared one while we run)"""
+        import shutil
+        import tempfile
+        import time
+        if self.snapshot is None and self.ctx.driver.ok:
+            self.tmp = tempfile.mkdtemp(prefix='pv-om-')
+            for _ in range(60):
+                try:
+                    shutil.copy2(lib.DRIVER, os.path.join(self.tmp, 'pvdriver'))
+                    self.snapshot = os.path.join(self.tmp, 'pvdriver')
+                    break
+                except (FileNotFoundError, OSError):
+                    time.sleep(0.5)
+        return self.snapshot
+
+    def close(self):
+        import shutil
+        if self.tmp:
+            shutil.rmtree(self.tmp, ignore_errors=True)
+            self.tmp = None
+            self.snapshot = None
+
+    def _run_driver(self, lines):
+        import subprocess
+        drv = self._driver()
+        if drv is None:
+            return None
+        data = ('\n'.join(lines) + '\n').encode('utf-8')
+        try:
+            p = subprocess.run([drv], input=data, stdout=subprocess.PIPE, stderr=subprocess.PIPE, timeout=900)
+        except subprocess.TimeoutExpired:
+            raise lib.Infra('driver timeout')
+        out = p.stdout.decode('utf-8').split('\n')
+        if out and out[-1] == '':
+            out.pop()
+        if len(out) != len(lines):
+            raise lib.Infra('driver returned %d replies for %d requests (rc=%s, stderr=%s)' % (
+                len(out), len(lines), p.returncode, p.stderr.decode('utf-8', 'replace')[-500:]))
+        return out
 
     def doc(self, text, legacy, origin):
         ctx = self.ctx
@@ -349,7 +392,7 @@ class Batch:
         ctx = self.ctx
         if not self.reqs:
             return
-        replies = ctx.driver.run(self.reqs)
+        replies = self._run_driver(self.reqs)
         if replies is not None:
             for (expected, case), rep in zip(self.items, replies):
                 ctx.traces += 1
@@ -457,6 +500,7 @@ def run_om(ctx):
         b.flush()
     finally:
         set_legacy(False)
+        b.close()
 
 
 def _real_lines(text):
@@ -486,6 +530,7 @@ def replay_om(ctx, case):
         b.flush()
     finally:
         set_legacy(False)
+        b.close()
     for f in ctx.failures:
         print('REPLAY-FAIL', f['sig'], f['what'])
     for f in ctx.divergences:
